@@ -11,6 +11,46 @@ package comet
 func init() {
 	vHarnesses["H_C10_flush"] = H_C10_flush
 	vHarnesses["H_C10_compact"] = H_C10_compact
+	vHarnesses["H_C10_flush_race"] = H_C10_flush_race
+}
+
+// an explicit Flush racing with the background flush worker over the same frozen memtable: the process dies
+// the instant Flush has returned nil (image = snapshot at that instant, whatever the worker was in the middle
+// of); the document acknowledged by that Flush is found after reopening the image
+func H_C10_flush_race() {
+	vStoreTemplates = 3
+	dir := vTempDir()
+	s, err := OpenPersistentHybridIndex(vFreshStoreCfg(dir, false))
+	vAssert(err == nil, "open-ok")
+	d := vStoreDocs[0]
+	vAssert(s.AddWithID(d.id, []float32{d.vec}, d.text, nil) == nil, "add-ok")
+	s.memtableQueue.Rotate()
+	select { // what a size-triggered rotation does: wake the flush worker
+	case s.flushChan <- struct{}{}:
+	default:
+	}
+	var ferr error
+	snap := -1
+	done := make(chan int, 1)
+	vSchedFork(true)
+	vPreempt(1)
+	vFSSched(2)
+	go func() {
+		ferr = s.Flush()
+		snap = vFSSnapshot()
+		done <- 0
+	}()
+	<-done
+	vPreempt(0)
+	vFSSched(0)
+	vSchedFork(false)
+	vAssert(ferr == nil, "flush-ok")
+	vAssert(s.Close() == nil, "close-ok")
+	vFSRestore(snap)
+	vCover("ran")
+	if s2 := vReopenAfterCrash(dir, []vStoreDoc{d}, nil); s2 != nil {
+		s2.Close()
+	}
 }
 
 func vIDsOfHybrid(rs []HybridSearchResult) []uint32 {
@@ -131,13 +171,15 @@ func H_C10_compact() {
 	cfg.CompactionThreshold = 2
 	s, err := OpenPersistentHybridIndex(cfg)
 	vAssert(err == nil, "open-ok")
-	for f := 0; f < 2; f++ {
+	nseg := 2 + vChoose("segments", 2) // 3: one more segment than the threshold stays outside the compaction
+	for f := 0; f < nseg; f++ {
 		d := vStoreDocs[f]
 		vAssert(s.AddWithID(d.id, []float32{d.vec}, d.text, nil) == nil, "add-ok")
 		vAssert(s.Flush() == nil, "flush-ok")
 		docs = append(docs, d)
 	}
 	c := vChoose("crash_at", 60)
+	before0 := vFSOverwrites()
 	vFSCrashAt(vFSOps() + c)
 	crashed := vRunUntilCrash(func() { s.maybeCompact() })
 	if !crashed {
@@ -145,6 +187,7 @@ func H_C10_compact() {
 	}
 	vCover("crashed")
 	vTag("compaction")
+	vAssert(vFSOverwrites() == before0, "compaction-never-overwrites-a-segment-file")
 	hi := vHighestSegID(dir)
 	vFSRemove(dir + "/LOCK")
 	s2, err2 := OpenPersistentHybridIndex(vFreshStoreCfg(dir, false))
@@ -155,7 +198,7 @@ func H_C10_compact() {
 	r, e := s2.NewSearch().WithVector([]float32{1}).WithK(10).Execute()
 	vAssert(e == nil, "first-search-no-error")
 	for _, id := range vIDsOfHybrid(r) {
-		vAssert(id == docs[0].id || id == docs[1].id, "first-search-no-never-added-document")
+		vAssert(id == docs[0].id || id == docs[1].id || (nseg == 3 && id == docs[2].id), "first-search-no-never-added-document")
 	}
 	x := vStoreDocs[3]
 	before := vFSOverwrites()
